@@ -192,6 +192,9 @@ theorem history_fetchedSize (P : Params) (B : Bytes) (hc : 0 < P.chunk) (hB : B.
   obtain ⟨k1, k2, _⟩ := runOps_spec P B hc hB ops _ h1 hh
   exact fetchedSize_of_inv P B _ _ h1 k1 k2
 
+example : exB.length = (⟨10, 4⟩ : Params).size := by decide
+example : ∀ op ∈ [Op.read 3 6 (.parts [⟨0, 9, exB⟩]), .drop ⟨4, 7⟩, .cache 0 10 .fail,
+    .read 5 2 (.parts [⟨4, 7, [4, 5, 6, 7]⟩])], op.Honest exB := by decide
 example : trace ⟨10, 4⟩ {} [.read 3 6 (.parts [⟨0, 9, exB⟩]), .drop ⟨4, 7⟩, .cache 0 10 .fail,
     .read 5 2 (.parts [⟨4, 7, [4, 5, 6, 7]⟩])]
     = [(3, 6, some (6, [3, 4, 5, 6, 7, 8])), (5, 2, some (2, [5, 6]))] := by decide
@@ -216,6 +219,65 @@ example : (([[1, 2], [], [3, 4, 5], [6]] : List Bytes).foldl BW.write
     { dest := List.replicate 3 0, destOff := 1, current := 0 }).dest = [2, 3, 4] := by decide
 example : (([[1, 2], [3]] : List Bytes).foldl BW.write
     { dest := List.replicate 4 0, destOff := 1, current := 0 }).dest = [2, 3, 0, 0] := by decide
+
+/-! ## 6. the request covers every missing chunk; an honest server allows success -/
+
+/-- In multi-range and in single-range mode the ranges put into the Range header cover every byte
+of every missing chunk. -/
+theorem request_covers_missing (missing : List Chunk) (hne : ∀ c ∈ missing, c.b ≤ c.e)
+    (single : Bool) :
+    ∀ c ∈ missing, ∀ x : Int, (c.b : Int) ≤ x → x ≤ c.e → cov x (requestRanges single missing) :=
+  request_covers missing hne single
+
+/-- For missing chunks of the grid, every requested range is non-empty and starts / ends where a
+grid chunk starts / ends (so the reply to it is chunk aligned). -/
+theorem request_aligned (P : Params) (hc : 0 < P.chunk) (missing : List Chunk)
+    (hm : ∀ c ∈ missing, GridChunk P c) (single : Bool) :
+    ∀ r ∈ requestRanges single missing, r.b ≤ r.e ∧ GridStart P r.b ∧ GridEnd P r.e :=
+  requestRanges_grid P hc missing hm single
+
+/-- An honest server that answers exactly the requested ranges (one part per range, all its
+bytes) is an `HonestReply` and makes `fetchRegions` succeed, from any state. -/
+theorem honest_server_fetch_succeeds (P : Params) (B : Bytes) (hc : 0 < P.chunk)
+    (hB : B.length = P.size) (missing : List Chunk) (hm : ∀ c ∈ missing, GridChunk P c)
+    (single : Bool) (s : St) :
+    HonestReply B (honestAnswer B (requestRanges single missing)) ∧
+    ∃ got, (fetchMissing P s missing (honestAnswer B (requestRanges single missing))).2 = some got :=
+  ⟨honestAnswer_honest B _, fetchMissing_honest_ok P B hc hB missing hm single s⟩
+
+/-- `ReadAt` never fails against such a server: the chunks it asks for (`missingFor`) are grid
+chunks, and the answer to `requestRanges` of them lets it succeed.  With the invariant the result
+is then the exact bytes. -/
+theorem honest_server_readAt_succeeds (P : Params) (B : Bytes) (hc : 0 < P.chunk)
+    (hB : B.length = P.size) (s : St) (hs : Inv P B s) (o n : Nat) (single : Bool) :
+    ∃ ms, missingFor P s o n = some ms ∧
+      ∃ buf, (readAt P s o n (honestAnswer B (requestRanges single ms))).2
+          = some (min n (P.size - o), buf) ∧
+        buf.take (min n (P.size - o)) = slice B o (min n (P.size - o)) := by
+  obtain ⟨ms, h1, h2⟩ := readAt_honest_ok P B hc hB s o n single
+  refine ⟨ms, h1, ?_⟩
+  obtain ⟨_, _, h3⟩ := readAt_spec P B hc hB s hs o n _ (honestAnswer_honest B (requestRanges single ms))
+  rcases h3 with h3 | ⟨buf, h4, _, h5⟩
+  · exact absurd h3 h2
+  · exact ⟨buf, h4, h5⟩
+
+/-- `Cache` never fails against such a server. -/
+theorem honest_server_cacheAt_succeeds (P : Params) (B : Bytes) (hc : 0 < P.chunk)
+    (hB : B.length = P.size) (s : St) (o n : Nat) (single : Bool) :
+    (cacheAt P s o n (honestAnswer B (requestRanges single
+      ((chunksFrom P (o + n - 1) (P.size + 1) (floorU o P.chunk)).filter
+        (fun c => (s.cache.get c).isNone))))).2 = true :=
+  cacheAt_honest_ok P B hc hB s o n single
+
+-- non-vacuity: chunks [0,3] and [8,9] missing (the middle one cached)
+example : ∀ c ∈ [(⟨0, 3⟩ : Chunk), ⟨8, 9⟩], GridChunk ⟨10, 4⟩ c := by decide
+example : ∀ c ∈ [(⟨0, 3⟩ : Chunk), ⟨8, 9⟩], c.b ≤ c.e := by decide
+example : requestRanges false [⟨0, 3⟩, ⟨8, 9⟩] = [⟨0, 3⟩, ⟨8, 9⟩] := by decide
+example : requestRanges true [⟨0, 3⟩, ⟨8, 9⟩] = [⟨0, 9⟩] := by decide
+example : requestRanges false [⟨4, 7⟩, ⟨0, 3⟩] = [⟨0, 7⟩] := by decide
+example : missingFor ⟨10, 4⟩ exS 3 6 = some [⟨0, 3⟩, ⟨8, 9⟩] := by decide
+example : (readAt ⟨10, 4⟩ exS 3 6 (honestAnswer exB (requestRanges true [⟨0, 3⟩, ⟨8, 9⟩]))).2
+    = some (6, [3, 4, 5, 6, 7, 8]) := by decide
 
 /-! ## 7. retry state machine of `httpFetcher.fetch` -/
 
